@@ -403,6 +403,12 @@ pub fn recompute(step: &Value) -> Value {
     match &res {
         Ok(ind) => {
             r["i1"] = json!("returned");
+            // behaviour signature: which kinds of warnings came back (used to give rare behaviours
+            // their share of the threaded histories)
+            let mut sig: Vec<String> = ind.warnings.iter().map(|w| format!("{:?}:{}", w.level, crate::panics::skeleton(&w.msg))).collect();
+            sig.sort();
+            sig.dedup();
+            r["warn_sig"] = json!(sig.join("|"));
             // I3 finiteness, only inside the strict sanity predicate
             let reser = serde_json::to_value(&model).unwrap_or(Value::Null);
             match sane(&reser) {
